@@ -34,6 +34,7 @@ Proof. apply (evals_of_run _ _ 40); [vm_compute; reflexivity|discriminate]. Qed.
 Definition pil_blank_line := blank_line pil_ws.
 Definition pil_stmt_ok := stmt_ok pil_nodes pil_stmt pil_ws.
 Definition pil_item_ok := item_ok pil_nodes pil_stmt pil_ws.
+Definition pil_body_ok := body_ok pil_nodes pil_stmt pil_ws.
 Definition pil_tail_ok (tl : pstr) : Prop := std_pre pil_ws tl = [].
 
 Theorem pil_document_evals pls its tl :
@@ -42,6 +43,16 @@ Theorem pil_document_evals pls its tl :
   evals pil_nodes D 0 true (At D) (POk Past (flat_map it_toks its)).
 Proof.
   exact (document_concat_gen pil_nodes 0 pil_c 1 4 5 6 7 pil_stmt 303 pil_ws false
+           pil_comment_ok (proj2 pil_root_shape) pil_ss pil_zm pil_sl pil_le pil_om pil_se pil_stmt_past pls its tl).
+Qed.
+
+Definition pil_items_ok := items_ok pil_nodes pil_stmt pil_ws.
+Theorem pil_document_items_evals pls its tl :
+  Forall pil_blank_line pls -> pil_items_ok its tl -> its <> [] -> pil_tail_ok tl ->
+  let D := concat pls ++ flatten its ++ tl in
+  evals pil_nodes D 0 true (At D) (POk Past (flat_map it_toks its)).
+Proof.
+  exact (document_concat_items pil_nodes 0 pil_c 1 4 5 6 7 pil_stmt 303 pil_ws false
            pil_comment_ok (proj2 pil_root_shape) pil_ss pil_zm pil_sl pil_le pil_om pil_se pil_stmt_past pls its tl).
 Qed.
 
@@ -75,6 +86,25 @@ Proof.
   intros Hp Hi Hne Ht D HD.
   destruct (evals_parse_fuel pil_grammar D _ HD (pil_document_evals pls its tl Hp Hi Hne Ht)) as [f0 H].
   exists f0. intros f Hf. unfold parse_pil_fuel. rewrite (H f Hf). reflexivity.
+Qed.
+
+(* one statement (a body followed by a statement end that reaches the end of the input) *)
+Theorem pil_statement_parse b y E t :
+  blanks pil_ws b -> stmt_start pil_ws y -> pil_body_ok y t -> stmt_end pil_ws E [] ->
+  no_tab (b ++ y ++ E) ->
+  exists f0, forall f, f0 <= f -> parse_pil_fuel f (b ++ y ++ E) = vals t.
+Proof.
+  intros Hb Hy Hok HE Hnt.
+  pose proof (pil_document_items_evals [] [mkItem b (y ++ E) t] []) as H. cbn in H.
+  rewrite !app_nil_r in H.
+  assert (Hits : pil_items_ok [mkItem b (y ++ E) t] []).
+  { cbn. split; [split; [exact Hb|]|split; [|exact I]].
+    - destruct y as [|d y]; [destruct Hy|]. exact Hy.
+    - intros full b' Hb'. cbn. rewrite <- app_assoc. apply Hok; assumption. }
+  specialize (H (Forall_nil _) Hits ltac:(discriminate) eq_refl).
+  assert (ED : b ++ y ++ E = b ++ (y ++ E)) by reflexivity.
+  destruct (evals_parse_fuel pil_grammar _ _ Hnt H) as [f0 Hf]. exists f0. intros f Hle.
+  unfold parse_pil_fuel. rewrite (Hf f Hle). unfold vals. cbn. rewrite ?app_nil_r. reflexivity.
 Qed.
 
 (* a single statement is a document: the document of the statements is the
@@ -120,3 +150,22 @@ Proof. intros H Hf. unfold parse_string_fuel in *. eapply parse_more_fuel; eauto
 Definition parse_pil_file (content : pstr) : val := parse_pil content.
 Lemma parse_file_eq_string content : parse_pil_file content = parse_pil content.
 Proof. reflexivity. Qed.
+
+(* ---- concrete layouts meeting the abstract layout predicates ---- *)
+Lemma pil_blank_line_plain b : blanks pil_ws b -> pil_blank_line (b ++ [NL]).
+Proof. apply (blank_line_plain pil_nodes pil_c pil_ws pil_comment_ok). Qed.
+Lemma pil_blank_line_comment b cm : blanks pil_ws b -> no_nl cm -> pil_blank_line (b ++ HASH :: cm ++ [NL]).
+Proof. apply (blank_line_comment pil_nodes pil_c pil_ws pil_comment_ok). Qed.
+Lemma pil_tail_blanks b : blanks pil_ws b -> pil_tail_ok b.
+Proof. intros H. unfold pil_tail_ok. rewrite <- (app_nil_r b), (std_pre_blanks pil_ws b [] H). reflexivity. Qed.
+Lemma pil_tail_comment b cm : blanks pil_ws b -> no_nl cm -> pil_tail_ok (b ++ HASH :: cm).
+Proof.
+  intros H Hc. unfold pil_tail_ok. rewrite (std_pre_blanks pil_ws b _ H).
+  apply (std_pre_comment_eof pil_nodes pil_c pil_ws pil_comment_ok). exact Hc.
+Qed.
+(* a statement end that reaches the end of the input: a line end and blank lines ... *)
+Lemma pil_stmt_end_lines l ls : pil_blank_line l -> Forall pil_blank_line ls -> stmt_end pil_ws (l ++ concat ls) [].
+Proof. intros Hl Hls. left. exists l, ls. repeat split; assumption. Qed.
+(* ... or no line end at all *)
+Lemma pil_stmt_end_eof E : pil_tail_ok E -> stmt_end pil_ws E [].
+Proof. intros H. right. split; [reflexivity|exact H]. Qed.
